@@ -15,7 +15,7 @@
    the hypothesis that names the excluded class. *)
 From HV Require Import Base.Prelude Base.Outcome Base.Bytes Spec.Parse Spec.Format Spec.FormatMsg
   Model.CodecMsg Model.CodecType Model.CodecLink Model.CodecAttr Model.CodecSuper
-  Proofs.ReaderSpecBase Proofs.ReaderSpecDataspace Proofs.ReaderSpecLayout Proofs.ReaderSpecLink Proofs.ReaderSpecSuper Proofs.ReaderSpecAttr Proofs.ReaderSpecType Proofs.ReaderSpecAttrFrame Proofs.ReaderSpecSuperOk.
+  Proofs.ReaderSpecBase Proofs.ReaderSpecDataspace Proofs.ReaderSpecLayout Proofs.ReaderSpecLink Proofs.ReaderSpecSuper Proofs.ReaderSpecAttr Proofs.ReaderSpecType Proofs.ReaderSpecAttrFrame Proofs.ReaderSpecSuperOk Proofs.ReaderSpecInfo Proofs.ReaderSpecTypeAll.
 
 (* ------------------------------------------------------------------ dataspace (versions 1 and 2; scalar, simple, null;
    maximum extents).  The reader is not told the size of lengths: it infers 8- or 4-byte extents from the message length.
@@ -182,3 +182,43 @@ Theorem C06_reader_superblock_v0_base_refuted :
   spec_view (sb0_base 512) = Ok (0, 8, 8, 512, 96) /\ reader_view (sb0_base 512) = Ok (0, 8, 8, 0, 96).
 Proof. exact superblock_v0_base_refuted. Qed.
 Print Assumptions C06_reader_superblock_v0_base_refuted.
+
+(* ------------------------------------------------------------------ datatype, all eleven classes (nested descriptions
+   included): class, version and size of whatever the reader returns are the specification's; never a panic *)
+Theorem C06_reader_datatype_header : forall (pad_ok : bool) (bs : bytes) (t : dtype) (tg : list tag),
+  bytes_ok bs = true ->
+  spec_dec_datatype strict pad_ok bs = Ok (t, tg) ->
+  err_or (dt_header_agree t) (dec_datatype bs).
+Proof. exact datatype_header_reader_spec. Qed.
+Print Assumptions C06_reader_datatype_header.
+
+(* ------------------------------------------------------------------ link info message: flags, maximum creation index,
+   fractal heap / name B-tree / creation order B-tree addresses, for every valid size of offsets *)
+Theorem C06_reader_linkinfo : forall (osz : nat) (sbver lsz : N) (pad_ok : bool) (bs : bytes) (s : linkinfo_spec),
+  size_ok (N.of_nat osz) = true ->
+  spec_dec_linkinfo osz pad_ok bs = Ok s ->
+  err_or (li_agree s)
+         (dec_linkinfo {| sb_version := sbver; sb_offsize := N.of_nat osz; sb_lensize := lsz; sb_bigendian := false |} bs).
+Proof. exact linkinfo_reader_spec. Qed.
+Print Assumptions C06_reader_linkinfo.
+
+(* ------------------------------------------------------------------ attribute info message of exactly the specified size
+   (version 2 object headers do not pad).  With flag bit 0 (creation order tracked) the reader skips four bytes for the
+   2-byte maximum creation index and so finds the message too short: an error, not another value. *)
+Theorem C06_reader_attrinfo : forall (osz : nat) (sbver lsz : N) (bs : bytes) (s : attrinfo_spec),
+  size_ok (N.of_nat osz) = true ->
+  spec_dec_attrinfo osz false bs = Ok s ->
+  err_or (ai_agree s)
+         (dec_attrinfo {| sb_version := sbver; sb_offsize := N.of_nat osz; sb_lensize := lsz; sb_bigendian := false |} bs).
+Proof. exact attrinfo_reader_spec. Qed.
+Print Assumptions C06_reader_attrinfo.
+
+(* ... followed by zero padding (only possible in a version 1 object header, where the reference library never puts this
+   message) the same misreading gives other addresses *)
+Theorem C06_reader_attrinfo_padded_refuted :
+  spec_dec_attrinfo 8 true attrinfo_padded_witness =
+    Ok {| ais_flags := 1; ais_maxcidx := Some 5; ais_heap := 1000; ais_btname := 2000; ais_btorder := None |} /\
+  dec_attrinfo {| sb_version := 2; sb_offsize := 8; sb_lensize := 8; sb_bigendian := false |} attrinfo_padded_witness =
+    Ok {| ai_version := 0; ai_flags := 1; ai_heap := 562949953421312000; ai_btname := 0; ai_maxcidx := 5; ai_btorder := 0 |}.
+Proof. exact attrinfo_padded_refuted. Qed.
+Print Assumptions C06_reader_attrinfo_padded_refuted.
